@@ -339,8 +339,8 @@ def second(items, n):
 
 
 REPLAY = {'quick': [('ab', 2, 40, 1), ('a_b', 2, 30, 0)],
-          'thorough': [('ab', 2, None, 1), ('a_b', 2, None, 0),
-                       ('abc', 2, 500, 1), ('ab_c', 3, None, 1, 'num=800')]}
+          'thorough': [('ab', 2, 700, 1), ('a_b', 2, 300, 0),
+                       ('abc', 2, 300, 1), ('ab_c', 3, None, 1, 'num=300')]}
 
 
 def main():
